@@ -23,7 +23,10 @@ BUILT = {
  'C08f1': 'O14.7 listed under C08 + table_write_transient_fault_sweep replay; O8.6 built next to it', 'C10f1': 'O10.13 (several edits accumulated on one builder)', 'C15f2': 'byte-level readers: by_ref / take / read_to_end',
  'C16f1': 'O2.5a: no base version for tables written during log replay; two_wal_crash_reopen noreuse', 'C03g1': 'O3.4: Arc::strong_count as a free value, snapshots of one state in the replay, 4 operations in the quick tier',
  'C02g1': 'io::Error::new summary', 'C01g1': 'Range::contains summary', 'C02g2': 'format / must_use summaries', 'C05g2': 'O5.5 + snapshot_interleave replay (logger hook)', 'C04g2': 'O4.3: transient read error at a block crossing, then seek; FaultFs read faults',
- 'C06g2': 'O4.2: deep version stacks (10 versions of one key)', 'C10g2': 'O10.14 (SSTables descriptor order)', 'C15g1': 'O15.5 replays also alter the fragment type byte', 'C08g2': 'as C08f1', 'C11g2': 'O17.2 listed under C11',
+ 'C06g2': 'O4.2: deep version stacks (10 versions of one key)', 'C14g2': 'O14.2: reader offsets at and beyond 4 GiB', 'C15g2': 'O10.12: an accepted prefix is a complete encoding; hash-set insertion forks', 'C09g1': '',
+ 'C11h1': 'O4.1: clean-up closures monitored + exhausted_iterator_pin', 'C13h1': 'cursor patterns that reposition after falling off an end', 'C09h1': 'O15.11: relative steps into the damaged table + scan_over_unopenable_table', 'C15h2': 'O4.3: separator-contract index keys in the unreadable-block case',
+ 'C07h1': 'O7.4c with three / four level-0 files', 'C01h1': 'O12.10 (disk create_file) + disk_log_reuse', 'C16h2': 'O12.10 replay disk_create_file_modes', 'C12h1': 'O12.11 (in-memory file Read contract)', 'C08h2': 'O8.7 (set_bad_database_state)', 'C02h2': 'O8.7',
+ 'C06h2': 'O13.5: find_table never answers KeyNotFound for an unopenable file; ErrorKind comparison', 'C08i1': 'O8.8 (get_all_db_files)', 'C13i2': 'O8.6: plain write with ignored count + short_write_flush', 'C15i1': 'O13.3: file length by contract, truncated_table_read', 'C09i2': 'O9.10 (manual-compaction log line)', 'C11i2': 'O11.9 (release_inputs)', 'C10g2': 'O10.14 (SSTables descriptor order)', 'C15g1': 'O15.5 replays also alter the fragment type byte', 'C08g2': 'as C08f1', 'C11g2': 'O17.2 listed under C11',
 }
 rows = []
 for sid in sorted(os.listdir(os.path.join(HERE, 'seeded'))):
